@@ -581,16 +581,16 @@ def rebuilt_sessions(rng, tier, n=25):
             new = rng.choice([s for s in ["N", "O", "S", "Cl", "Si"] if s != atoms[a]["element_symbol"]])
             atoms[a]["element_symbol"], atoms[a]["atomic_number"] = new, gen.Z[new]
         bonds = {(x, y): dict(d) for x, y, d in S.objs[o].edges(data=True)}
-        try:
-            h = graph_from_molecule(atoms, bonds)
-        except Exception as ex:  # noqa
-            S.ev.append({"op": "raised", "call": "graph_from_molecule", "arg": o, "clause": "C04:graph_from_molecule-raised-" + type(ex).__name__})
+        for d in atoms.values():
+            d.pop(record.TAG, None)
+        for d in bonds.values():
+            d.pop(record.ETAG, None)
+        # h: a new molecule, built by the library's constructor from the edited dictionaries
+        k = S.build(atoms, bonds)
+        if not k:
             ss.append(S)
             continue
-        if "bad" in record.project(h):
-            continue
-        # h: a new molecule whose atoms still carry o's tags -> introduced as an input of its own, tags renewed
-        k = S.input(h)
+        h = S.objs[k]
         descs = [k] + [S.derive(k, relabel(S.objs[k], p, rng), p) for p in [gen.random_perm(rng, nn) for _ in range(2)]]
         # ... and the same molecule written down from scratch
         scratch = gen.mol([(d["element_symbol"], d.get("mass", 0), d.get("rad", 0), d.get("chg", 0)) for _, d in sorted(h.nodes(data=True))],
